@@ -1,8 +1,9 @@
-// Package sim contains the simulated network used by harnesses.
+// Package sim contains the simulated network and cluster used by harnesses.
 package sim
 
 import (
 	"errors"
+	"fmt"
 	"io"
 	"net"
 	"os"
@@ -11,32 +12,47 @@ import (
 	"verif/vrt"
 )
 
-// Conn is the client side of an in-memory connection.
+// Fault makes the At-th operation (1-based, counted over Read, Write,
+// SetReadDeadline, SetWriteDeadline and Close calls of the client) fail.
+type Fault struct {
+	At      int
+	Partial int // Write only: bytes delivered before the error (-1: all but one)
+}
+
+// Conn is the client side of an in-memory connection. Every method is a
+// scheduling point of the controlled runtime; deadlines live on the virtual clock.
 type Conn struct {
 	Name     string
 	C2S      []byte // bytes written by the client, not yet consumed by the server
 	S2C      []byte // bytes written by the server, not yet read by the client
 	Closed   bool   // closed by the client
-	SrvClose bool   // closed by the server
+	SrvClose bool   // closed by the server (EOF after S2C drains)
 	RDL      time.Time
 	WDL      time.Time
 	Ops      int
-	Writes   [][]byte // every client Write call, in order
-	MaxRead  int      // 0 = unlimited
-	FailAt   int      // 1-based index of the faulted operation (0 = none)
-	Partial  int      // for a faulted Write: bytes delivered before the error
-	Faulted  string   // which op was faulted
+	Writes   [][]byte // every successful client Write, in order
+	All      []byte   // every byte the client ever delivered
+	MaxRead  int      // 0 = unlimited; otherwise Read returns at most MaxRead bytes (short reads)
+	Faults   []Fault
+	Faulted  []string // which ops were faulted
 	OpLog    []string
+	CloseN   int
+	RDLSets  int
+	rdlTimer *vrt.Timer
+	// OnClose is called when the client closes the connection.
+	OnClose func()
 }
 
-func (c *Conn) fault(kind string) bool {
+func (c *Conn) fault(kind string) *Fault {
 	c.Ops++
 	c.OpLog = append(c.OpLog, kind)
-	if c.FailAt != 0 && c.Ops == c.FailAt {
-		c.Faulted = kind
-		return true
+	for i := range c.Faults {
+		if c.Faults[i].At == c.Ops {
+			c.Faulted = append(c.Faulted, fmt.Sprintf("%s#%d", kind, c.Ops))
+			return &c.Faults[i]
+		}
 	}
-	return false
+	return nil
 }
 
 type addr string
@@ -50,7 +66,7 @@ func (c *Conn) readable() bool {
 }
 
 func (c *Conn) Read(p []byte) (int, error) {
-	if c.fault("read") {
+	if c.fault("read") != nil {
 		vrt.Yield("conn.Read")
 		return 0, errors.New("sim: injected read error")
 	}
@@ -76,12 +92,19 @@ func (c *Conn) Read(p []byte) (int, error) {
 func (c *Conn) Write(p []byte) (int, error) {
 	f := c.fault("write")
 	vrt.Yield("conn.Write")
-	if f {
-		n := c.Partial
+	if f != nil {
+		n := f.Partial
+		if n < 0 {
+			n = len(p) + n
+		}
 		if n > len(p) {
 			n = len(p)
 		}
+		if n < 0 {
+			n = 0
+		}
 		c.C2S = append(c.C2S, p[:n]...)
+		c.All = append(c.All, p[:n]...)
 		return n, errors.New("sim: injected write error")
 	}
 	if c.Closed {
@@ -91,39 +114,65 @@ func (c *Conn) Write(p []byte) (int, error) {
 		return 0, errors.New("sim: broken pipe")
 	}
 	c.C2S = append(c.C2S, p...)
+	c.All = append(c.All, p...)
 	c.Writes = append(c.Writes, append([]byte(nil), p...))
 	return len(p), nil
 }
 
 func (c *Conn) Close() error {
+	f := c.fault("close")
+	vrt.Yield("conn.Close")
+	c.CloseN++
 	if c.Closed {
 		return net.ErrClosed
 	}
 	c.Closed = true
+	if c.OnClose != nil {
+		c.OnClose()
+	}
+	if f != nil {
+		return errors.New("sim: injected close error")
+	}
 	return nil
 }
 
 func (c *Conn) LocalAddr() net.Addr  { return addr("client") }
 func (c *Conn) RemoteAddr() net.Addr { return addr(c.Name) }
 func (c *Conn) SetDeadline(t time.Time) error {
-	c.SetReadDeadline(t)
+	if err := c.SetReadDeadline(t); err != nil {
+		return err
+	}
 	return c.SetWriteDeadline(t)
 }
+
 func (c *Conn) SetReadDeadline(t time.Time) error {
-	if c.fault("setrdl") {
+	f := c.fault("setrdl")
+	vrt.Yield("conn.SetReadDeadline")
+	if f != nil {
 		return errors.New("sim: injected deadline error")
 	}
 	if c.Closed {
 		return net.ErrClosed
 	}
 	c.RDL = t
-	if !t.IsZero() {
+	c.RDLSets++
+	if c.rdlTimer != nil {
+		c.rdlTimer.Stop()
+		c.rdlTimer = nil
+	}
+	if !t.IsZero() && vrt.Active() {
 		// make sure virtual time can advance to the deadline
-		vrt.AfterFunc(t.Sub(vrt.Now()), func() {})
+		c.rdlTimer = vrt.AfterFunc(t.Sub(vrt.Now()), func() {})
 	}
 	return nil
 }
+
 func (c *Conn) SetWriteDeadline(t time.Time) error {
+	f := c.fault("setwdl")
+	vrt.Yield("conn.SetWriteDeadline")
+	if f != nil {
+		return errors.New("sim: injected deadline error")
+	}
 	if c.Closed {
 		return net.ErrClosed
 	}
